@@ -234,3 +234,40 @@ simd_harness!(c16_euclid_triangle, unwind = 10, {
     let ac = euclidean(&fa, &fc);
     assert!(ac <= (ab + bc) * (1.0 + 4.0 * f32::EPSILON), "triangle inequality");
 });
+
+// Euclidean over three packed blocks (an odd block count > 1): every block contributes exactly once
+simd_harness!(c16_euclid_3blocks, unwind = 10, {
+    let a0 = block(1, 4, 1.0);
+    let a1 = block(1, 4, 0.0);
+    let a2 = block(1, 4, 2.0);
+    let b0 = block(1, 4, 0.0);
+    let b1 = block(1, 4, 3.0);
+    let b2 = block(1, 4, -1.0);
+    let fa: Feature = vec![f32x8::new(a0), f32x8::new(a1), f32x8::new(a2)];
+    let fb: Feature = vec![f32x8::new(b0), f32x8::new(b1), f32x8::new(b2)];
+    let want = (sq_dist(&a0, &b0) + sq_dist(&a1, &b1) + sq_dist(&a2, &b2)).sqrt();
+    assert!(euclidean(&fa, &fb) == want, "three blocks: every block counted exactly once");
+    assert!(euclidean(&fb, &fa) == want, "symmetric");
+});
+
+// cosine of small-magnitude vectors (all lanes scaled by 2^-10, still exact): parallel = 1, opposite = -1, scale invariant
+simd_harness!(c16_cosine_small_magnitude, unwind = 10, {
+    let base = block(2, 3, 1.0);
+    let k: i8 = kani::any();
+    kani::assume(k >= 1 && k <= 3);
+    let s = 1.0f32 / 1024.0;
+    let mut a = [0.0f32; 8];
+    let mut p = [0.0f32; 8];
+    let mut n = [0.0f32; 8];
+    let mut i = 0;
+    while i < 8 {
+        a[i] = base[i] * s;
+        p[i] = base[i] * s * (k as f32);
+        n[i] = -base[i] * s;
+        i += 1;
+    }
+    let fa: Feature = vec![f32x8::new(a)];
+    assert!(cosine(&fa, &vec![f32x8::new(p)]) == 1.0, "small parallel vectors: cosine 1");
+    assert!(cosine(&fa, &vec![f32x8::new(n)]) == -1.0, "small opposite vectors: cosine -1");
+    assert!(cosine(&fa, &vec![f32x8::new(base)]) == 1.0, "invariant under positive scaling by 2^10");
+});
